@@ -305,7 +305,15 @@ impl MutationQuery {
                     }
                 }
             }
-            if is_update && !field_updated {
+            // a move to another room requested for THIS entity is a change of the row even when no
+            // field changes; a room_id copied from the parent entity (propagate_room) is not a request
+            let room_changed = match (&node_to_mutate.old_node, entity.fields.get(ROOM_ID_FIELD)) {
+                (Some(old), Some(room_field)) => {
+                    !room_field.is_propagated && old.room_id != node_to_mutate.room_id
+                }
+                _ => false,
+            };
+            if is_update && !field_updated && !room_changed {
                 //nothing changed, the node will not be updated
                 node_to_mutate.node = None;
             } else if let Some(node) = &mut node_to_mutate.node {
